@@ -157,7 +157,7 @@ def ctrlLine (st : KState) (e : SExp) : KState × String :=
       -- ---- running
       if !r then
         (if nLists > 0 && (lists.all fun l => l.finish > 0) && now > (lists.getLast?.map (·.finish)).getD 0 + 50 then
-          fail "reject C08 the first list completed but the controller is not ready" else (st1, "ok"))
+          fail "reject C08/C03 the first list completed but the controller is not ready" else (st1, "ok"))
       else
       match c with
       | none => fail "diff controller cache unreadable while running"
